@@ -11,6 +11,8 @@
                        68-byte buffer instead of io.ReadFull / ParsePacket (round 5).
     orphan_timer:      a reader whose packet channel was closed does not return but
                        keeps its silence timer and reconnects 10 s later (round 5).
+    cached_keys:       newKeys keeps the ephemeral key pair / secret of the previous
+                       peer and hands it out again for a different server (round 6).
     chan_per_session:  c.resp is made by setupEncryptedConnection (every
                        handshake) instead of once by NewConnection, while the
                        application keeps the channel it got from Responses(). *)
@@ -113,4 +115,30 @@ Definition handshakes (orphan_timer : bool) (sessions : list (N * session_end)) 
 Theorem orphan_timer_refuted :
   let life := [(500, SClosed); (12000, SRunning)] in
   handshakes false life = 2%nat /\ handshakes true life = 3%nat.
+Proof. vm_compute. split; reflexivity. Qed.
+
+(* ---------- the key pair of the previous peer used for another server ---------- *)
+
+(* toy key agreement: pub = identity, dh a b = bytewise sum (commutative) *)
+Fixpoint vadd (a b : list N) : list N :=
+  match a, b with x :: a', y :: b' => (x + y) mod 256 :: vadd a' b' | _, _ => [] end.
+Definition hinit (k iv : list N) : N := fold_left N.add (k ++ iv) 1.
+(* a position-sensitive toy hash *)
+Definition hH2 (x : list N) : list N :=
+  let h := fold_left (fun a b => (a * 31 + b + 1) mod 65521) x 7 in
+  repeat (h mod 256) 16 ++ repeat (h / 256) 16.
+
+Definition keyA : list N := repeat 11 32.
+Definition keyB : list N := repeat 29 32.
+Definition ckey : list N := repeat 5 32.
+Definition hparams : list N := map N.of_nat (seq 0 160).
+
+Theorem cached_keys_refuted :
+  (* a handshake for B with the secret derived for B: accepted *)
+  (match server_accept hH2 N hnext hinit vadd keyB keyB
+           (handshake_bytes hH2 N hnext hinit keyB hparams ckey (vadd ckey keyB)) with
+   | Some sv => sv_params N sv = hparams | None => False end) /\
+  (* B's key id with the secret derived for A: B cannot decrypt the parameters *)
+  server_accept hH2 N hnext hinit vadd keyB keyB
+    (handshake_bytes hH2 N hnext hinit keyB hparams ckey (vadd ckey keyA)) = None.
 Proof. vm_compute. split; reflexivity. Qed.
